@@ -41,6 +41,10 @@ class Base:
     def __init__(self, n):
         self.n = n
 
+    def __len__(self):
+        # every other resource object is an empty container: a resource is a resource whatever its truth value
+        return self.n % 2
+
 
 CLASSES = [type(f"V{i}", (Base,), {}) for i in range(N_CLASSES)]
 
@@ -48,6 +52,9 @@ CLASSES = [type(f"V{i}", (Base,), {}) for i in range(N_CLASSES)]
 class GenObj:
     def __init__(self, c, fid, k):
         self.c, self.fid, self.k = c, fid, k
+
+    def __len__(self):
+        return self.fid % 2
 
 
 class Sentinel:
@@ -560,6 +567,11 @@ class Env:
             return {"op": "GetNowait", "c": h.idx, "t": t, "name": n, "optional": r.random() < 0.3}
         if k < 0.82:
             t, n = self.pick_key(r)
+            # a lookup that is suspended in its factory in ANOTHER context: ask for the same thing here meanwhile
+            # (each context generates its own)
+            elsewhere = [rec["key"] for h2 in self.hs if h2 is not h for rec in h2.pending.values() if "key" in rec]
+            if elsewhere and r.random() < 0.5:
+                t, n = r.choice(elsewhere)
             tok = self.next_tok
             self.next_tok += 1
             return {"op": "GetBegin", "c": h.idx, "tok": tok, "t": t, "name": n, "optional": r.random() < 0.3}
